@@ -125,6 +125,11 @@ def main(argv=None):
         for h in hits:
             print(f"KNOWN-FINDING: property={prop} {h.get('what', h['key'])}")
         extra = {}
+        try:
+            ctx.repo.text("tucan/graph_attributes.py")
+            extra["attribute_name_spellings"] = getattr(ctx.repo, "attribute_names_note", "")
+        except AnalysisError:
+            pass
         if selfval is not None:
             extra["self_validation"] = selfval["summary"]
             extra["self_validation_variants"] = selfval["variants"]
